@@ -10,8 +10,8 @@
 EXTENDS SCSched
 
 TracesS == ndJsonDeserialize("traces.ndjson")
-VARIABLES ti, l, ent, stopped, epv, dep
-tsvars == <<svars, ti, l, ent, stopped, epv, dep>>
+VARIABLES ti, l, ent, stopped, epv, dep, pq
+tsvars == <<svars, ti, l, ent, stopped, epv, dep, pq>>
 
 ToSetS(q) == {q[i] : i \in 1..Len(q)}
 OutOfS(jo) == [i \in 1..Len(jo) |->
@@ -33,7 +33,7 @@ EpAfter(o, i, g) ==
   ELSE EpAfter(o, i + 1, g)
 
 TInit == /\ ti \in 1..Len(TracesS) /\ l = 0 /\ mi = TracesS[ti].mi
-         /\ epv = [s \in Machines[TracesS[ti].mi].states |-> 0] /\ dep = <<>>
+         /\ epv = [s \in Machines[TracesS[ti].mi].states |-> 0] /\ dep = <<>> /\ pq = <<>>
          /\ ent = [s \in Machines[TracesS[ti].mi].states |-> 0] /\ stopped = FALSE
          /\ status = "" /\ config = {} /\ hist = <<>> /\ ctx = <<>> /\ output = "" /\ queue = <<>> /\ now = 0
          /\ timers = {} /\ svcs = {} /\ busy = 0 /\ busySeq = 0 /\ seq = 0 /\ deferred = <<>> /\ ghost = <<>> /\ out = <<>>
@@ -42,6 +42,7 @@ TNext == /\ l < Len(TracesS[ti].steps) /\ l' = l + 1
          /\ LET j == TracesS[ti].steps[l'] IN
               /\ ent' = EnteredAfter(OutOfS(j.out), 1, j.t, ent)
               /\ stopped' = (stopped \/ j.op = "stop")
+              /\ pq' = IF "queue" \in DOMAIN j THEN j.queue ELSE <<>>
               /\ LET g == EpAfter(OutOfS(j.out), 1, [ep |-> epv, doneEp |-> dep]) IN epv' = g.ep /\ dep' = g.doneEp
          /\ UNCHANGED <<svars, ti>>
 TSpec == TInit /\ [][TNext]_tsvars
@@ -59,6 +60,11 @@ TVerdict ==
                         Cardinality({i \in 1..Len(o) : o[i].k = "invoke" /\ o[i].a = s /\ o[i].b = D.invokes[s][x].id})
                         = Cardinality({i \in 1..Len(o) : o[i].k = "sched" /\ o[i].a = s}),
                       "not_started_exactly_once_per_entry"),
+      C04 |-> (IF j.op \in {"stop", "wait"} \/ "queue" \notin DOMAIN j THEN {}
+               ELSE C04Log(o, pq, j.queue, <<>>,
+                           \/ j.status # "running" \/ stopped
+                           \/ \E i \in 1..Len(o) : o[i].k \in CutKinds \cup {"loop_error"})),
+      C01 |-> (IF "config" \in DOMAIN j /\ j.status \in {"running", "done"} THEN Tag(Legal(ToSetS(j.config)), "final") ELSE {}),
       C14 |-> (IF stopped \/ j.op = "stop" THEN
                  Tag(("svcs" \in DOMAIN j => j.svcs = <<>>) /\ ("timers" \in DOMAIN j => j.timers = <<>>), "stop_releases_everything")
                  \cup (IF stopped THEN Tag(\A i \in 1..Len(o) : o[i].k \notin {"on_transition", "act", "event", "sched", "arm", "invoke"},
